@@ -315,7 +315,7 @@ func (c09) Run(t *tape.Tape, st *Stats) *Violation {
 			} else if t.Bool() {
 				nrec := [...]int{2, 40, 300, 1500}[t.Intn(4)]
 				sb := [...]int{2, 200, 4000, 30000}[t.Intn(4)]
-				p := refmodel.BuildMLUCFanIn(nrec, sb)
+				p := refmodel.BuildMLUCFanInFill(nrec, sb, t.Intn(4))
 				prof, desc = p.Bytes, p.Summary
 				faults = append(faults, "amplification: shared mluc string")
 			} else {
@@ -354,7 +354,7 @@ func (c09) Run(t *tape.Tape, st *Stats) *Violation {
 			if t.Bool() {
 				nrec := [...]int{1, 2, 40, 300, 1500}[t.Intn(5)]
 				sb := [...]int{0, 2, 200, 4000, 30000}[t.Intn(5)]
-				p = refmodel.BuildMLUCFanIn(nrec, sb)
+				p = refmodel.BuildMLUCFanInFill(nrec, sb, t.Intn(4))
 				faults = append(faults, "amplification: shared mluc string")
 			} else {
 				nt := [...]int{1, 2, 40, 300, 1500}[t.Intn(5)]
